@@ -143,6 +143,22 @@ func TestEngineGenesis(t *testing.T) {
 			fp.BaseFee = sdkmath.NewInt(whole + int64([]int{0, 0, 1, 12345}[r.Intn(4)]))
 			require.NoError(t, fk.SetParams(ctx, fp))
 		}
+		if directed || r.Chance(1, 2) { // EVM parameters away from their defaults: asymmetric toggles, extra EIPs
+			ek := c.s.ChainApp.EvmKeeper()
+			ep := ek.GetParams(ctx)
+			switch r.Intn(3) {
+			case 0:
+				ep.EnableCreate, ep.EnableCall = false, true
+			case 1:
+				ep.EnableCreate, ep.EnableCall = true, false
+			default:
+				ep.ExtraEIPs = []int64{3855}
+			}
+			if directed {
+				ep.EnableCreate, ep.EnableCall = false, true
+			}
+			require.NoError(t, ek.SetParams(ctx, ep))
+		}
 		c.setupDone()
 		for i := 0; i < r.Intn(3); i++ { // a few blocks: the base fee moves
 			c.finalize(nil)
